@@ -190,7 +190,7 @@ class SPNClassifier(BaseEstimator, ClassifierMixin):
 
         # Collect the predicted class probabilities
         class_ids = [c.id for c in self.spn_.children]
-        class_ll = np.log(self.spn_.weights) + lls[class_ids]
+        class_ll = np.log(self.spn_.weights) + lls[class_ids].T
         return log_softmax(class_ll, axis=1)
 
     def sample(self, n: Optional[int] = None, y: Optional[np.ndarray] = None) -> np.ndarray:
